@@ -102,7 +102,11 @@ func cmdVC(args []string) int {
 			jobs = append(jobs, job{fr.VC, o, i})
 			if *dump != "" {
 				os.MkdirAll(*dump, 0o755)
-				os.WriteFile(filepath.Join(*dump, sanitize(o.Name)+".smt2"), []byte(fr.VC.smtFor(o, true)), 0o644)
+				mode := 0
+				if os.Getenv("HV_DUMP_MODE") != "" {
+					mode, _ = strconv.Atoi(os.Getenv("HV_DUMP_MODE"))
+				}
+				os.WriteFile(filepath.Join(*dump, sanitize(o.Name)+".smt2"), []byte(fr.VC.smtForOpt(o, true, mode)), 0o644)
 			}
 		}
 		res := solveAll(jobs, func(*Obligation) int { return *timeout }, 0, 1, 8)
@@ -213,6 +217,13 @@ func (e *Engine) contractCallees(fn *ssa.Function) []string {
 		}
 	}
 	return out
+}
+
+func firstOr(ls []string) string {
+	if len(ls) > 0 {
+		return ls[0]
+	}
+	return ""
 }
 
 var evStandins []StandinResult
@@ -344,6 +355,20 @@ func cmdCheck(args []string) int {
 		standins = append(standins, r)
 		if r.Error != "" {
 			undecided = append(undecided, "stand-in "+sc.Name+": "+r.Error)
+		}
+		// findings recorded in known_findings.json are reported as such; an unlisted key is a violation
+		for key, n := range r.Known {
+			listed := false
+			for _, f := range loadKnown().Findings {
+				if f.Property == P && f.Status == "open" && f.Obligation == key {
+					fmt.Printf("KNOWN-FINDING: property=%s %s (%d inputs in this run, e.g. %s)\n", P, f.What, n, firstOr(r.KnownLines))
+					listed = true
+				}
+			}
+			if !listed {
+				r.Violations += n
+				r.Lines = append(r.Lines, r.KnownLines...)
+			}
 		}
 		if r.Violations > 0 {
 			standinViol++
